@@ -1,4 +1,5 @@
 """Rules shared by the three re-emitters (decompressor C05, compressor C06, renamer C07)."""
+import re
 from analysis import facts as F
 from analysis.cfg import PathFlow, Automaton
 from analysis.e4 import E4
@@ -27,7 +28,7 @@ def dispatch_rule(ctx, facts, cfg, rid, key, what):
 
 
 # ------------------------------------------------------------------------------------------------ rdlen accounting (E4)
-def accounting_rule(ctx, facts, cfg, rid, key, havoc, opaque=(), floor=3):
+def accounting_rule(ctx, facts, cfg, rid, key, havoc, opaque=(), floor=2):     # 3 sites on the pinned tree; arms sharing a rewrite have fewer
     """Every rdlength rewritten by `key` equals the number of bytes the output grew behind the 10-byte record header."""
     if facts.fn(key) is None:
         ctx.missing(rid, key)
@@ -99,7 +100,7 @@ class _PendingAu(Automaton):
         return None
 
 
-def rewrite_on_every_path_rule(ctx, facts, cfg, rid, key, name_calls, floor=3):
+def rewrite_on_every_path_rule(ctx, facts, cfg, rid, key, name_calls, floor=2):
     """After a name has been re-emitted inside record data (its length in the output differs from the input in general), every
     successful path to the end of that record's treatment rewrites the data length: no Ok return, and no advance to the next record, is
     reached with the rewrite still pending (path-sensitive; failed paths are ignored, the output is discarded there).  All three
@@ -268,6 +269,44 @@ def _linear(e):
     return (((repr(e), 1),), 0)
 
 
+def _const_alternatives(f, local):
+    """the set of literals a multiply-assigned local can hold (`let k = if .. { 2 } else { 0 }`), or None"""
+    vals = set()
+    for _, b in F.blocks(f):
+        for st in b['stmts']:
+            if st['k'] == 'assign' and not st['place']['proj'] and st['place']['local'] == local:
+                rv = st['rv']
+                if rv['k'] == 'use' and rv['x']['k'] == 'const' and isinstance(rv['x'].get('val'), int):
+                    vals.add(rv['x']['val'])
+                else:
+                    return None
+        t = b['term']
+        if t['k'] == 'call' and not t['dest']['proj'] and t['dest']['local'] == local:
+            return None
+    return vals or None
+
+
+def _extent_alternatives(f, end, start):
+    """possible constant values of end - start, the symbolic parts cancelling and multiply-assigned locals ranging over their literals"""
+    le_, ls_ = _linear(end), _linear(start)
+    if le_ is None or ls_ is None:
+        return None
+    terms = dict(le_[0])
+    for k, c in ls_[0]:
+        terms[k] = terms.get(k, 0) - c
+    base = le_[1] - ls_[1]
+    outs = {base}
+    for k, c in terms.items():
+        if not c:
+            continue
+        m = re.match(r"\('local', (\d+)\)$", k)
+        alts = _const_alternatives(f, int(m.group(1))) if m else None
+        if alts is None:
+            return None
+        outs = {o + c * a for o in outs for a in alts}
+    return outs
+
+
 def fixed_parts_rule(ctx, facts, cfg, rid, key):
     """Question arm copies exactly 4 bytes, MX arm copies header + 2, SOA copies 20 behind the second name; second SOA name starts where the first ended."""
     f = facts.fn(key)
@@ -279,6 +318,7 @@ def fixed_parts_rule(ctx, facts, cfg, rid, key):
     H = pol['rr_header_size']
     tr = layout.Tracer(f, facts)
     lens = []
+    merged = False
     for bi, b in F.blocks(f):
         t = b['term']
         if t['k'] == 'call' and (F.call_path(t) or '').split('::')[-1] in ('extend_from_slice', 'extend'):
@@ -315,10 +355,16 @@ def fixed_parts_rule(ctx, facts, cfg, rid, key):
                     if le_ is not None and ls_ is not None and le_[0] == ls_[0]:
                         lens.append((le_[1] - ls_[1], t['at']))
                     else:
-                        lens.append((None, t['at']))
+                        alts_ = _extent_alternatives(f, end, start)
+                        if alts_:
+                            for a_ in sorted(alts_):
+                                lens.append((a_, t['at']))      # one site standing for several arms (`10 + k`, k = 0 | 2)
+                            merged = True
+                        else:
+                            lens.append((None, t['at']))
     consts = sorted(x for x, _ in lens if x is not None)
     want = sorted([pol['question_fixed'], H, H + pol['mx_name_at'], H, pol['soa_fixed']])
-    ok = consts == want
+    ok = consts == want or (merged and set(consts) == set(want))     # merged arms: the same sizes, fewer sites
     ctx.instance(rid, '%s copies fixed parts of %s bytes (question 4, header 10, MX header+2 12, SOA header 10, SOA trailer 20)' % (key.split('::')[-1], consts), ok=ok, site=f['at'])
     if not ok:
         ctx.violation(rid, key, 'fixed-parts', '%s copies constant-size pieces of %s bytes; expected %s (question fixed part 4, record header 10, MX header + preference 12, SOA trailer 20)'
@@ -343,9 +389,22 @@ def fixed_parts_rule(ctx, facts, cfg, rid, key):
                 while x[0] == 'binop' and x[1] == 'Add' and x[3][0] == 'const':
                     tot += x[3][1]
                     x = x[2]
+                if x[0] == 'binop' and x[1] == 'Add':
+                    # `rdata + 10 + k` with k = 0 | 2 chosen by the type: one walk site standing for several arms
+                    lin_ = _linear(e)
+                    alts_ = None
+                    if lin_ is not None:
+                        locs_ = [(k_, c_) for k_, c_ in lin_[0] if re.match(r"\('local', \d+\)$", k_) and _const_alternatives(f, int(re.findall(r'\d+', k_)[0])) is not None]
+                        if len(locs_) == 1 and locs_[0][1] == 1:
+                            alts_ = {lin_[1] + a_ for a_ in _const_alternatives(f, int(re.findall(r'\d+', locs_[0][0])[0]))}
+                    if alts_:
+                        for a_ in sorted(alts_):
+                            starts.append('rdata+%d' % a_)
+                        merged = True
+                        continue
                 starts.append('rdata+%d' % tot)
     want_s = sorted(['rdata+%d' % H, 'rdata+%d' % (H + pol['mx_name_at']), 'rdata+%d' % H, 'prev.final_offset'])
-    ok = sorted(starts) == want_s
+    ok = sorted(starts) == want_s or (merged and set(starts) == set(want_s))
     ctx.instance(rid, '%s starts its name walks at %s' % (key.split('::')[-1], sorted(starts)), ok=ok, site=f['at'])
     if not ok:
         ctx.violation(rid, key, 'name-starts', '%s starts its name walks at %s; expected %s (the second SOA name begins at the wire position where the first one ended)'
